@@ -532,6 +532,17 @@ def report(prop, tier, seed, results, extra, wall):
         seen.add(key)
         print('KNOWN-FINDING: property=%s obligation=%s %s' % (prop, k['obligation'], k['what']))
     # group violations by obligation id
+    # Triage of proof hints.  A ghost `assert` inside a proof block is a step of OUR proof, not an obligation generated from the
+    # contracts: when it is the only thing that fails in a function, every pre/postcondition, invariant, overflow and panic check of
+    # that function was still discharged (Verus assumes a failed assert and goes on).  Such a failure is treated like a fallback: a
+    # VIOLATION only with a concrete failing execution of the real code, otherwise UNDECIDED.
+    by_fn = {}
+    for f in violations:
+        by_fn.setdefault((f['unit'], f['function']), []).append(f)
+    for fs0 in by_fn.values():
+        if all(f['kind'] == 'assert' and not f.get('site_is_real_code') for f in fs0):
+            for f in fs0:
+                f.setdefault('fallback', 'proof_hint_only')
     byid = {}
     del_ids = []
     for f in violations:
